@@ -62,3 +62,9 @@ package sanitize
 //@   at-call ReplaceAll:str, "\\" assert backslashes-are-doubled-first[C16]: arg0 == str && arg1 == "\\" && arg2 == "\\\\"
 //@   at-call ReplaceAll:str, "'" assert then-quotes-are-doubled[C16]: arg0 == callresult(ReplaceAll, 0, 1) && arg1 == "'" && arg2 == "''"
 //@   ensures wrapped-in-quotes[C16]: called(ReplaceAll) && result == "'" + callresult(ReplaceAll, 0, 2) + "'"
+
+// C16: an argument that no placeholder used is an error: a flag per argument, set where the argument is substituted, and
+// every flag looked at before the text is handed back
+//@ func (*Command).Sanitize
+//@   loop 1 ascending-range the-use-flags-are-walked-in-order[C16]: argUse
+//@   loop 1 exhaustive every-argument-is-checked-for-use[C16]: argUse
